@@ -153,6 +153,18 @@ func (e *Engine) intrinsic(name string) stubFn {
 		return func(m *Machine, c *frame, fn *ssa.Function, a []Value) Value {
 			return sym.Ite(m.term(a[0]), m.term(a[1]), m.term(a[2]))
 		}
+	case "vrf_topic_validate":
+		// vrf_topic_validate(ctx, source peer.ID, msg *pubsub.Message) bool: calls the
+		// validator the component registered with pubsub
+		return func(m *Machine, c *frame, fn *ssa.Function, a []Value) Value {
+			if m.topicValidator == nil {
+				m.end(endEngineError, "no topic validator was registered")
+			}
+			if itf, ok := m.topicValidator.(Iface); ok {
+				return m.call(c, 0, itf.V, a)
+			}
+			return m.call(c, 0, m.topicValidator, a)
+		}
 	case "vrf_rpc_authorize":
 		// vrf_rpc_authorize(s *rpc.Server, pid peer.ID, svc, method string) bool:
 		// calls the authorisation function installed in the server, as gorpc does
